@@ -4,11 +4,13 @@ import FiberModel.Generated.C06Facts
 /-
 Driver for C06. Case fields (after the id):
   cfg  req0  later(`;`-separated requests or `-`)  implObs
-cfg     := imm(0/1)[,cs][,ipv][,ph][,split][,srv][,tp]     (flags in this order)
+cfg     := imm(0/1)[,cs][,hh][,ipv][,mw][,ph][,po][,rr][,split][,srv][,tp]   (flags in this order; at most
+           one of hh, mw, po, rr; po only with imm = 1)
 request := proto|name|rest|query|headers|cookies|host|body   (pairs: `hexk=hexv,…` or `-`;
            body: `n` | `r:<hex>` | `f:<pairs>` | `j:<pairs>` | `m:<pairs>~<file pairs>` |
                  `z:<hex list of encodings>:<hex list of layers>`)
-implObs := acc=during/end/after;…   (each a hex list; after = `na` when imm = 0)
+implObs := acc=during/end/after;…   (each a hex list; after = `na` when imm = 0; `acc=v` is short for
+           v/v/v, or v/v/na when imm = 0)
 Special case id `coverage`: one field, the `,`-separated accessor ids the harness probed; compared
 with the regenerated table (every row must have a dynamic confirmation).
 -/
@@ -26,13 +28,19 @@ def parseCfg (s : String) : Option Cfg :=
   | i :: flags => do
     let imm ← if i == "1" then some true else if i == "0" then some false else none
     -- canonical spelling only: known flags, strictly ascending
-    let known := ["cs", "ipv", "ph", "split", "srv", "tp"]
+    let known := ["cs", "hh", "ipv", "mw", "ph", "po", "rr", "split", "srv", "tp"]
     if !(flags.all known.contains) then none
     let rec asc : List String → Bool
       | a :: b :: r => a < b && asc (b :: r)
       | _ => true
     if !asc flags then none
-    some { imm, cs := flags.contains "cs", ipv := flags.contains "ipv", ph := flags.contains "ph",
+    let chains := flags.filter ["hh", "mw", "po", "rr"].contains
+    if chains.length > 1 then none
+    -- rewriting the path is the handler's own doing: without the option nothing is promised across it
+    if flags.contains "po" && !imm then none
+    let chain := if flags.contains "hh" then 1 else if flags.contains "mw" then 2 else if flags.contains "rr" then 3
+      else if flags.contains "po" then 4 else 0
+    some { imm, chain, cs := flags.contains "cs", ipv := flags.contains "ipv", ph := flags.contains "ph",
            split := flags.contains "split", tp := flags.contains "tp", srv := flags.contains "srv" }
   | [] => none
 
@@ -82,6 +90,7 @@ def splitAcc (acc : String) : String × Bytes :=
 def rowNameOf (meth : String) : String :=
   -- `Query[string]` → `Query`; `Bind.Query:map` → `Bind.Query:source`; `Bind.Body:map` → `Bind.Body:dispatch`
   let m := (meth.splitOn "[").headD meth
+  let m := if m.startsWith "Mw." || m.startsWith "H1." then (m.drop 3).toString else m  -- handler in front
   let m := if m.startsWith "Pre." then (m.drop 4).toString else m     -- early probe of the same accessor
   if m.startsWith "Bind." then
     let base := (m.splitOn ":").headD m
@@ -95,6 +104,9 @@ def findRow (meth : String) : Option Row :=
 
 def parseObs (imm : Bool) (s : String) : Option Obs :=
   match s.splitOn "/" with
+  | [d] => do   -- compact form: the value read the same all three times
+    let d ← hexList d
+    some { during := d, atEnd := d, after := if imm then some d else none }
   | [d, e, a] => do
     let d ← hexList d
     let e ← hexList e
@@ -103,6 +115,7 @@ def parseObs (imm : Bool) (s : String) : Option Obs :=
   | _ => none
 
 def renderObs (d e : List Bytes) (a : Option (List Bytes)) : String :=
+  if e == d && (match a with | some a => a == d | none => true) then hexListField d else
   s!"{hexListField d}/{hexListField e}/{match a with | some a => hexListField a | none => "na"}"
 
 /-- accessor id → method part (`Get(Host)` → `Get`, `Query[string](q)` → `Query[string]`) -/
@@ -169,6 +182,7 @@ def handleCase (f : List String) : Except String Verdict := do
     let tags := [if imm then "immutable" else "mutable", s!"later{min laterN 9}", s!"body-{q.bkind}"] ++
       (if cfg.cs then ["cs"] else []) ++ (if cfg.split then ["split"] else []) ++ (if cfg.ph then ["ph"] else []) ++
       (if cfg.ipv then ["ipv"] else []) ++ (if cfg.tp then ["tp"] else []) ++ (if cfg.srv then ["real-server"] else []) ++
+      [s!"chain{cfg.chain}"] ++
       (if nosem > 0 then ["has-nosem"] else []) ++ (if views > 0 then ["table-says-view"] else []) ++
       (if imm && laterN > 0 then ["nt"] else [])
     pure { id := id, modelObs := ";".intercalate modelParts, implObs := impl, spec := fail, tags := tags }
